@@ -111,9 +111,10 @@ PreToks(ts, i, o) ==
          \o PreToks(ts, i + 1, o)
 
 (* ---- rules ------------------------------------------------------------------------------------ *)
-IsHostOnly(sel) == Len(sel) = 2 /\ sel[1].k = "colon" /\ sel[2].k = "ident" /\ sel[2].v = "host" /\ ~sel[2].w
+HostNames == {"host", "HOST", "Host"}       \* pseudo-class names, at-keywords and function names are ASCII case-insensitive
+IsHostOnly(sel) == Len(sel) = 2 /\ sel[1].k = "colon" /\ sel[2].k = "ident" /\ sel[2].v \in HostNames /\ ~sel[2].w
 StartsWithHost(sel) == Len(sel) >= 2 /\ sel[1].k = "colon" /\ ~sel[2].w
-                       /\ ((sel[2].k = "ident" /\ sel[2].v = "host") \/ (sel[2].k = "func" /\ sel[2].v = "host"))
+                       /\ ((sel[2].k = "ident" /\ sel[2].v \in HostNames) \/ (sel[2].k = "func" /\ sel[2].v \in HostNames))
 
 Open(id)  == Out([k |-> "{"], "free", id)
 Close(id) == Out([k |-> "}"], "free", id)
@@ -149,7 +150,7 @@ ImportOut(it, o) ==
        \o [i \in 1..n |-> Close(id)]
 
 ImportPlain(it, o) ==      \* no import sign: the rule passes through
-    <<Out([k |-> "at", v |-> "import"], "free", it.id),
+    <<Out([k |-> "at", v |-> IF it.form = "STRING" THEN "IMPORT" ELSE "import"], "free", it.id),
       Out([k |-> IF it.form = "url" THEN "url" ELSE "string", v |-> it.path], "free", it.id)>>
     \o (IF it.layer = "none" THEN <<>>
         ELSE IF it.layer = "" THEN <<Out([k |-> "ident", v |-> "layer"], "free", it.id)>>
